@@ -72,6 +72,8 @@ def sweep_task(task):
             r = run(argv, stdin=("\n".join(chunk) + "\n").encode(), cpu=120, wall=600)
         sh.procs += 1
         outs, crash = align_lines(chunk, r)
+        if r.sig is None:
+            sh.check_san(r, "san", "conv:src=%s:tgt=%s:san" % (src, tgt))
         specs = BIGSPECS if tgt == "big" else [tgt]
         for k, got in enumerate(outs):
             d = days[pos + k]
